@@ -1,0 +1,24 @@
+//go:build verif
+
+package codec
+
+// Contracts for the deductive verifier in /verif (govc). Comment-only file: adds no code.
+
+// Hmac: HMAC-SHA256 under the given key over exactly the given text.
+//@ func Hmac
+//@   prop C04
+//@   ensures [sha256-keyed-with-the-key-over-the-body] calls(hmac.New) == 1 && arg(hmac.New, 1) == key && calls(io.WriteString) == 1 && arg(io.WriteString, 0) == ret(hmac.New) && arg(io.WriteString, 1) == body && calls(Sum) == 1 && result == ret(Sum) && before(io.WriteString, Sum)
+//@ func HmacBase64
+//@   prop C04
+//@   opaque Hmac
+//@   ensures [base64-of-the-mac] calls(Hmac, key, body) == 1 && calls(EncodeToString) == 1 && arg(EncodeToString, 1) == ret(Hmac) && result == ret(EncodeToString)
+// crypt: the input is processed in consecutive blocks of bytesLimit bytes (the last one shorter), each exactly
+// once and in order; the outputs are concatenated in that order; the first failing block aborts with its error.
+//@ func (*rsaBase).crypt
+//@   prop C04
+//@   arith math
+//@   requires r != nil && r.bytesLimit > 0 && len(input) <= 1000000000 && r.bytesLimit <= 1000000000
+//@   let lim = r.bytesLimit
+//@   loop 1 invariant 0 <= i && (i == 0 || lim * (i - 1) < len(input))
+//@   loop 1 iteration-ensures [next-block-in-order] calls(cryptFn) == 1 && arg(cryptFn, 0).arr == input.arr && arg(cryptFn, 0).off == input.off + lim * at_head(i) && len(arg(cryptFn, 0)) == min(lim, len(input) - lim * at_head(i)) && ret(cryptFn, 1) == nil && i == at_head(i) + 1 && len(result) == at_head(len(result)) + len(ret(cryptFn, 0))
+//@   ensures [block-error-aborts] result1 != nil ==> result0 == nil && result1 == ret(cryptFn, 1)
